@@ -478,6 +478,31 @@ func (e *c10env) ops() []c10op {
 			t.attrs = append(t.attrs, as...)
 			return nil, ent, true
 		}},
+		{"SetAttrs(key of a shared Attr)", func(e *c10env, t *mnode) (*mnode, *slog.Entry, bool) {
+			// the receiver refreshes an attribute under a key that it (and other loggers) may hold as one SHARED Attr
+			// object: the other holders keep the value they were given
+			sh := e.sharedAttrs(r)
+			kv := sh.kvs[r.Intn(len(sh.kvs))]
+			e.seq++
+			own := srcKV{key: kv.key, src: fmt.Sprintf("refreshed#%d", e.seq)}
+			var ent *slog.Entry
+			switch r.Intn(3) {
+			case 0:
+				ent = t.e.SetAttrs(own.attr())
+			case 1:
+				ent = t.e.Set(own.key, own.src)
+			default:
+				ent = t.e.SetAttrs1(slog.Attrs{own.attr()})
+			}
+			t.attrs = append(t.attrs, own)
+			return nil, ent, true
+		}},
+		{"SetAttrs(shared Attr objects)", func(e *c10env, t *mnode) (*mnode, *slog.Entry, bool) {
+			sh := e.sharedAttrs(r)
+			ent := t.e.SetAttrs(sh.attrs...)
+			t.attrs = append(t.attrs, sh.kvs...)
+			return nil, ent, true
+		}},
 		{"SetContextKeys", func(e *c10env, t *mnode) (*mnode, *slog.Entry, bool) {
 			k := fmt.Sprintf("ck%d", r.Intn(4))
 			ent := t.e.SetContextKeys(ctxKeyFor(k))
